@@ -187,6 +187,11 @@ func runEqv(line, ta, tb string) core.Outcome {
 	if a.panicked || a.timedOut {
 		return o
 	}
+	if !isReordering(ta, tb) {
+		// the claim of the case does not hold: nothing to compare
+		o.Tags = append(o.Tags, "eqv:not-a-reordering", "trivial")
+		return o
+	}
 	b := adaptText(tb)
 	if a.accepted() {
 		o.Tags = append(o.Tags, "eqv:accepted")
